@@ -2101,6 +2101,11 @@ func (l *Loader) loadByContext(ctx context.Context, source DataSource, fetchItem
 		}
 
 		if item.err != nil {
+			if ctx.Err() == nil && errors.Is(item.err, context.Canceled) {
+				// The leader failed because its own client went away, not because of the subgraph.
+				// The item is already removed, so load again instead of inheriting that error.
+				return l.loadByContext(ctx, source, fetchItem, input, res)
+			}
 			return item.err
 		}
 
